@@ -14,7 +14,7 @@
                                                     `visited[actualType]` → createLazySchemaForType;
                                                     hasGozodTags → Object(fields) else Any())
       createLazySchemaForType                       (Lazy(getter) whose wrapper cannot call the
-                                                    object's Parse: every value passes;
+                                                    object's Parse: every non-nil value passes;
                                                     for slices `Slice[any](lazy)` + the field's rules)
       createSchemaFromTypeWithInfo, Map case        (createNestedStructSchema: a FRESH visited set)
     fused with the evaluation of the schema it builds, so that it is a function of the value.
@@ -102,6 +102,9 @@ namespace Code
 /-- `hasGozodTags(actualType)`: some field of the struct type carries a gozod tag -/
 def hasTags (d : SDecl) : Bool := d.vmin.isSome || d.edges.any Edge.tagged
 
+/-- no element is a nil pointer -/
+def noNilElem (xs : List GVal) : Bool := xs.all fun x => match x with | .nil => false | _ => true
+
 /-- `visited[actualType]` of createSchemaFromTypeWithCycleDetection.  `cyc = false` is the same
     code with the cycle test removed (used to state that the test never fires on acyclic graphs). -/
 def onPath (cyc : Bool) (visited : List Nat) (t : Nat) : Bool := cyc && visited.contains t
@@ -117,7 +120,7 @@ def cEdge (cyc : Bool) (env : Env) (visited : List Nat) (e : Edge) : GVal → Bo
     match e.wrap with
     | .val | .emb => false
     | .ptr =>
-      if onPath cyc visited e.target then true                     -- Lazy: every value passes
+      if onPath cyc visited e.target then false                    -- Lazy treats a nil pointer as nil input and is not Optional (bc2d4fc)
       else !hasTags (decl env e.target)                            -- Object rejects nil (also when not required); Any() accepts it
     | _ => false                                                    -- a nil slice / map is "expected slice, received slice"
   | .list xs =>
@@ -125,7 +128,7 @@ def cEdge (cyc : Bool) (env : Env) (visited : List Nat) (e : Edge) : GVal → Bo
       cAll cyc env [] (hasTags (decl env e.target)) e.target xs     -- createNestedStructSchema: fresh `visited`
     else if e.wrap.isSlice then
       lenOK e.tag xs.length &&
-        (if onPath cyc visited e.target then true                   -- Slice[any](Lazy(…)): elements pass unchecked
+        (if onPath cyc visited e.target then noNilElem xs           -- Slice[any](Lazy(…)): non-nil elements pass unchecked
          else cAll cyc env visited (hasTags (decl env e.target)) e.target xs)
     else false
   | .node v kids =>
